@@ -544,7 +544,11 @@ func vNewUniverse(r *vrng, npre, nextra, naddr int, ci int) *vUniverse {
 func vNewRegistry(t *testing.T, mk VMakeDB, cfg RegistryConfig) *InvoiceRegistry {
 	idb, clk := mk(t)
 	notifier := &vNotifier{blockChan: make(chan *chainntnfs.BlockEpoch)}
-	ew := NewInvoiceExpiryWatcher(clk, 0, 1, nil, notifier)
+	// Start height 0 and no block epochs: the expiry watcher (an asynchronous
+	// caller of cancelInvoiceImpl when an accepted hold htlc reaches its
+	// expiry height) stays inert; its cancels are driven explicitly as
+	// "cancel" events instead.  Every accepted htlc has expiry >= 1 here.
+	ew := NewInvoiceExpiryWatcher(clk, 0, 0, nil, notifier)
 	cfg.Clock = clk
 	cfg.HtlcInterceptor = &MockHtlcModifier{}
 	cfg.HtlcHoldDuration = 30 * time.Second
